@@ -138,7 +138,20 @@ static arr_real to_arr(const std::vector<long>& v) {
 // ---------------------------------------------------------------- factories (exact-capable)
 static Factory f_fir(std::vector<long> h) {
     return [h] {
-        auto f = std::make_shared<FirFilterR>(to_arr(h));
+        // every other instance gets its taps through the mutable coeffs() accessor after construction (same length):
+        // c is "the coefficient vector" the object holds when process() is called
+        static long alt = 0;
+        std::shared_ptr<FirFilterR> f;
+        if ((alt++) % 2) {
+            arr_real other = to_arr(h);
+            for (int i = 0; i < other.size(); ++i) {
+                other[i] = 1.0 - other[i];
+            }
+            f = std::make_shared<FirFilterR>(other);
+            f->coeffs() = to_arr(h);
+        } else {
+            f = std::make_shared<FirFilterR>(to_arr(h));
+        }
         Unit u;
         u.proc = "fir";
         u.params = [h](Json& j) { j.arr("h", h).num("nh", h.size()); };
@@ -152,7 +165,16 @@ static Factory f_firc(std::vector<long> hr, std::vector<long> hi) {
         for (size_t i = 0; i < hr.size(); ++i) {
             h[i] = cmplx_t(hr[i], hi[i]);
         }
-        auto f = std::make_shared<FirFilterC>(h);
+        static long altc = 0;
+        std::shared_ptr<FirFilterC> f;
+        if ((altc++) % 2) {
+            f = std::make_shared<FirFilterC>(h * cmplx_t(0, 1) + cmplx_t(1, 0));
+            for (int i = 0; i < h.size(); ++i) {
+                f->coeffs()[i] = h[i];   // element-wise, in place
+            }
+        } else {
+            f = std::make_shared<FirFilterC>(h);
+        }
         Unit u;
         u.proc = "firc";
         u.cplx_in = true;
@@ -1349,6 +1371,28 @@ int main(int argc, char** argv) {
             auto facs = prefix_factories(rng, s % 2 == 1);
             for (auto& fac : facs) {
                 run_prefix_all(js, fac, rng, k);
+            }
+            // rivals: two instances of the SAME class with DIFFERENT parameters, fed the SAME samples alternately in frames of
+            // one granule (whatever one instance remembers about "the last sample" must not be visible to the other)
+            auto facs2 = prefix_factories(rng, s % 2 == 1);
+            for (size_t i = 0; i < facs.size() && i < facs2.size(); ++i) {
+                Unit pa = facs[i](), pb = facs2[i]();
+                if (pa.name != pb.name || pa.nin != pb.nin || pa.cplx_in != pb.cplx_in) {
+                    continue;
+                }
+                const vh::Rng srng(rng.next());
+                vh::Rng r1 = srng, r2 = srng;
+                Live A = start_prefix(js, facs[i], r1, (size_t)k * 4 * std::max(1, pb.gran));
+                Live B = start_prefix(js, facs2[i], r2, (size_t)k * 4 * std::max(1, pa.gran));
+                while (A.pos < A.stream[0].size() || B.pos < B.stream[0].size()) {
+                    for (Live* L : {&A, &B}) {
+                        if (L->pos < L->stream[0].size()) {
+                            step_prefix(js, *L, L->u.gran);
+                        }
+                    }
+                }
+                js.begin("Drop").num("id", A.id).end();
+                js.begin("Drop").num("id", B.id).end();
             }
         }
     } else if (mode == "long") {
